@@ -35,6 +35,9 @@ type C16Case struct {
 	// bound of the uncompressed chunks' sizes (default 40; may exceed Dict)
 	Dict   int `json:"dict,omitempty"`
 	MaxRaw int `json:"max_raw,omitempty"`
+	// Costly: every LZMA chunk consists of two-byte matches at far distances
+	// (compressed size well above the uncompressed size)
+	Costly bool `json:"costly,omitempty"`
 }
 
 var c16Prefixes = [][]string{{}, {"LRND"}, {"UD"}, {"LRND", "U"}, {"UD", "U"}}
@@ -74,6 +77,22 @@ func genC16(r *sim.Rng, tier string, idx int) *C16Case {
 	idx -= len(c16Seqs)
 	if idx < 256*len(c16Prefixes) {
 		return &C16Case{Mode: "ctl", Kinds: c16Prefixes[idx/256], Ctl: idx % 256, Seed: r.Uint64(), Reads: []int{32768}, Frag: "whole", MaxOps: 6}
+	}
+	if r.Chance(1, 40) {
+		// a long history of uncompressed chunks, then LZMA chunks made of the most
+		// expensive operations there are: legal, and far larger than their data
+		kinds := []string{"UD"}
+		raws := r.Range(0, 24)
+		for i := 0; i < raws; i++ {
+			kinds = append(kinds, "U")
+		}
+		c := &C16Case{Mode: "seq", Seed: r.Uint64(), Reads: reads, Frag: frag, MaxOps: r.Range(1, 60), Dict: 1 << uint(r.Range(16, 24)), MaxRaw: 1 << 16, Costly: true}
+		kinds = append(kinds, sim.Pick(r, []string{"LRN", "LRND", "LRN"}))
+		for i := r.Intn(3); i > 0; i-- {
+			kinds = append(kinds, sim.Pick(r, []string{"L", "LR", "LRN", "U"}))
+		}
+		c.Kinds = append(kinds, "end")
+		return c
 	}
 	switch r.Weighted([]int{5, 2, 3}) {
 	case 0:
@@ -162,6 +181,17 @@ func realiseC16(c *C16Case) (cs *refenc.ChunkSeq, legal bool, bad int) {
 	}
 	if c.Full > 0 {
 		o.ForceCompressed = map[int]int{c.Full - 1: c.FullSize}
+	}
+	if c.Costly {
+		o.Costly, o.ForceSize = map[int]bool{}, map[int]int{}
+		for i, k := range kinds {
+			switch {
+			case k[0] == 'L':
+				o.Costly[i] = true
+			case k[0] == 'U' && r.Chance(3, 4):
+				o.ForceSize[i] = 1 << 16
+			}
+		}
 	}
 	cs = refenc.Realise(r, kinds, o)
 	legal, bad = refenc.Legal(kinds)
